@@ -237,20 +237,35 @@ fn fam_lzma(ctx: &CaseCtx, cov: &mut Cov) -> CaseOut {
         let mut p2 = prog.clone();
         p2.push(Sym::Eos);
         if let Some(e2) = encode_valid(&p2, props, &mut out) {
-            let mut f = sut::lzma_header(props.byte(), 4096, Some(None));
+            // "marker-terminated" is decided by the option in effect, not by what the header's size
+            // field happens to hold: the caller saying "size unknown" overrides any header value
+            let l2 = e2.output.len() as u64;
+            let (hdr, mopts, how) = match rng.below(6) {
+                0 | 1 | 2 => (sut::lzma_header(props.byte(), 4096, Some(None)), sut::default_options(), "header field all ones"),
+                3 => (
+                    sut::lzma_header(props.byte(), 4096, Some(Some(*rng.pick(&[l2, l2 + 5, 0, l2.saturating_sub(1), u64::MAX - 1])))),
+                    sut::opts(UnpackedSize::ReadHeaderButUseProvided(None), None, false),
+                    "caller says unknown, header field holds a number",
+                ),
+                4 => (sut::lzma_header(props.byte(), 4096, Some(None)), sut::opts(UnpackedSize::ReadHeaderButUseProvided(None), None, false), "caller says unknown, header field all ones"),
+                _ => (sut::lzma_header(props.byte(), 4096, None), sut::opts(UnpackedSize::UseProvided(None), None, false), "caller says unknown, no header field"),
+            };
+            cov.name(&format!("marker_stream.{}", how), 1);
+            let mut f = hdr;
             f.extend_from_slice(&e2.payload);
             let clean = f.clone();
             f.extend_from_slice(&t);
             let rk = ReaderKind::random(&mut rng);
             let sink = SharedSink::new();
-            let c = sut::decode(Entry::Lzma, &f, &sut::default_options(), rk, &sink, &sut::new_obs(u64::MAX));
+            let c = sut::decode(Entry::Lzma, &f, &mopts, rk, &sink, &sut::new_obs(u64::MAX));
             out.evals += 1;
             cov.name("marker_stream_with_trailing", 1);
             if !c.verdict.is_err() {
                 out.violate(
                     "C11/lzma-marker/trailing-bytes-accepted",
                     format!(
-                        "marker-terminated .lzma followed by {} bytes ({}), reader {}: {}",
+                        "marker-terminated .lzma ({}) followed by {} bytes ({}), reader {}: {}",
+                        how,
                         t.len(),
                         TRAIL_NAMES[which],
                         rk.name(),
@@ -258,12 +273,12 @@ fn fam_lzma(ctx: &CaseCtx, cov: &mut Cov) -> CaseOut {
                     ),
                     J::obj().set("input_hex", J::s(crate::util::hex_trunc(&f, 2048))),
                 );
-            } else if rng.chance(1, 3) {
+            } else if how == "header field all ones" && rng.chance(1, 2) {
                 reject_despite_interruption(Entry::Lzma, "lzma-marker", &f, rk, &mut out, cov);
             }
             // and the same file without them is fine (so the rejection is about the trailing bytes)
             let sink = SharedSink::new();
-            let c = sut::decode(Entry::Lzma, &clean, &sut::default_options(), rk, &sink, &sut::new_obs(u64::MAX));
+            let c = sut::decode(Entry::Lzma, &clean, &mopts, rk, &sink, &sut::new_obs(u64::MAX));
             if !c.verdict.is_ok() || sink.bytes() != e2.output {
                 out.violate(
                     "C11/lzma-marker/clean-file-rejected",
